@@ -87,6 +87,10 @@ func Run(mod *ir.Module, fn *ir.Function) {
 	// that stays (a second if on the same let, a return of it) was unmarked
 	// with the dead if; mark again what the surviving statements use.
 	remarkSurvivors(mod, fn, fn.Body, deadLocals, live, localPtrs, mark)
+	// A store to a live local stays too, but is not a root: its value is
+	// marked by the propagation steps of phase 2b, which run again here.
+	markLiveLocalStoreValues(fn, live, deadLocals)
+	propagateCallResultLiveness(fn.Body, live, mark)
 
 	// Phase 3: sweep dead statements and shrink emit ranges.
 	// Even when no dead locals exist, the sweep still shrinks emit ranges
